@@ -32,6 +32,7 @@ MCNext ==
           \/ CLock(c) /\ Act(c, "CLock") /\ UNCHANGED ncmd
           \/ CDecide(c) /\ Act(c, "CDecide") /\ UNCHANGED ncmd
           \/ CEnter(c) /\ Act(c, "CEnter") /\ UNCHANGED ncmd
+          \/ CStart(c) /\ Act(c, "CStart") /\ UNCHANGED ncmd
           \/ CFinish(c) /\ Act(c, "CFinish") /\ UNCHANGED ncmd
           \/ CLoop(c) /\ Act(c, "CLoop") /\ UNCHANGED ncmd
     \/ CloserGo /\ Act("srv", "CloserGo") /\ UNCHANGED ncmd
@@ -39,7 +40,11 @@ MCNext ==
 
 MCSpec == MCInit /\ [][MCNext]_mcvars
 
-View == <<svars, ncmd>>
+\* The order in which the actors reached their critical sections is part of the view: in the lock-free
+\* scheduler model two orders lead to the same state, in the real server (which has the lock) they do not -
+\* both must be replayed.
+LockOrder == SelectSeq(hist, LAMBDA e : e.act \in {"KLock", "CLock"})
+View == <<svars, ncmd, [i \in DOMAIN LockOrder |-> LockOrder[i].a]>>
 Cover == ExportRecord([cfg |-> [closers |-> Closers, conns |-> Conns, variant |-> Variant], steps |-> hist'])
 
 =============================================================================
